@@ -2,6 +2,7 @@ package appdrv
 
 import (
 	"fmt"
+	rctypes "github.com/rigochain/rigo-go/ctrlers/types"
 
 	"github.com/rigochain/rigo-go/libs/web3"
 	"github.com/rigochain/rigo-go/types"
@@ -474,6 +475,37 @@ var Scenarios = []Directed{
 			s.Transfer(4, 5, "1e18")
 			s.End()
 		}
+	}},
+	{"forged_after_credit", []string{"C03", "C05", "C02"}, fam(0), func(s *Script) {
+		// refused transactions (forged signature, wrong chain, a field changed after signing, bad nonce) that name as
+		// receiver something an ACCEPTED transaction of the same block has just created or changed
+		s.Blocks(2, allHdr)
+		kr := s.R.KR
+		chain := s.Sc.Genesis.ChainID
+		forge := func(tx *rctypes.Trx, claimed, signer int, how, tag string) {
+			bz := s.B.Sign(tx, signer, chain)
+			if how == "chain" {
+				bz = s.B.Sign(tx, claimed, chain+"-x")
+			}
+			s.expect(!OK(s.DeliverRaw(bz, how, tag)), "a transaction without a valid signature is refused: "+tag)
+		}
+		s.Begin(allHdr) // 3: a fresh account is paid, then forged transfers to it
+		fresh := kr.Addr(11)
+		s.expect(OK(s.TransferTo(4, fresh, "1000", 0)), "a4 pays a fresh address")
+		forge(web3.NewTrxTransfer(kr.Addr(5), fresh, s.nonce(5), s.gas(), s.price(), Amt("1")), 5, 6, "wrongkey", "transfer:forged-to-fresh")
+		forge(web3.NewTrxTransfer(kr.Addr(5), fresh, s.nonce(5), s.gas(), s.price(), Amt("1")), 5, 5, "chain", "transfer:wrongchain-to-fresh")
+		txn := web3.NewTrxTransfer(kr.Addr(5), fresh, s.nonce(5)+3, s.gas(), s.price(), Amt("1"))
+		s.expect(!OK(s.Deliver(txn, 5, "transfer:nonce+")), "a transfer to it with a nonce gap is refused")
+		s.expect(OK(s.TransferTo(5, fresh, "7", 0)), "an honest transfer to it afterwards")
+		s.End()
+		s.Begin(allHdr) // 4: a new delegatee is created, then forged stakings to it; an existing account is changed, then a forged transfer to it
+		s.expect(OK(s.Stake(5, 5, "3e18")), "a5 becomes a delegatee")
+		forge(web3.NewTrxStaking(kr.Addr(6), kr.Addr(5), s.nonce(6), s.gas(), s.price(), Amt("1e18")), 6, 4, "wrongkey", "staking:forged-to-new-delegatee")
+		s.expect(OK(s.Transfer(4, 6, "5e18")), "a6 receives")
+		forge(web3.NewTrxTransfer(kr.Addr(4), kr.Addr(6), s.nonce(4), s.gas(), s.price(), Amt("1")), 4, 5, "wrongkey", "transfer:forged-to-changed")
+		s.expect(OK(s.Stake(6, 5, "1e18")), "an honest delegation afterwards")
+		s.End()
+		s.Blocks(2, allHdr)
 	}},
 	{"two_proposals_one_block", []string{"C15", "C16"}, fam(0), func(s *Script) {
 		s.Blocks(3, allHdr)
